@@ -109,7 +109,8 @@ let () =
              | 2 -> posb d2 && Broadcast.np_broadcast_to_shape m d2 <> None
              | 3 -> Views.np_reshape_shape (List.rev m) d2 <> None
              | _ -> true)) in
-      r (np ok) (np ok) false
+      (* broadcast_to with a zero or negative target extent: its own validation is not C15's pipeline subject (the bto cases use positive targets) *)
+      if k = 2 && not (posb d2) then r "unspecified" "unspecified" false else r (np ok) (np ok) false
     | _ -> failwith "pipe3");
   (* two possibly-empty stage results (reshapes of the same array) as both operands of a binary view *)
   register "pipe2" (fun a -> match a with [x; k; da; db] ->
